@@ -436,3 +436,193 @@ Proof.
   pose proof (xrun_inv sched _ (xinit_inv n progs)) as [(H & _ & _) _]. destruct (xrun sched (xinit n progs)) as [s ts]. cbn in H.
   intros Ht Hu. destruct (H t) as [T _]. destruct (H u) as [U _]. specialize (T l Ht). specialize (U l Hu). congruence.
 Qed.
+
+(* ---- the order of one sender: what thread t has put into the deque of sub-port i so far, followed by what its program still has to put
+   there, is what its program says - so (with mix_exactly_once: every deque is first-in first-out) each sender's messages leave every
+   sub-port in the order they were sent ---- *)
+Definition mine_of (t : nat) (l : list (nat * msg)) : list msg := map snd (filter (fun e => Nat.eqb (fst e) t) l).
+Definition xsend1 (n i : nat) (o : xop) : list msg :=
+  match o with
+  | XSend 0 m => if Nat.ltb i n then [m] else []
+  | XSend (S j) m => if Nat.eqb j i then [m] else []
+  | _ => []
+  end.
+Definition xsends (n i : nat) (p : list xop) : list msg := flat_map (xsend1 n i) p.
+Definition xpending (n i : nat) (th : xthread) : list msg :=
+  let rest := xsends n i (tl (xprog th)) in
+  match xat th with
+  | XSub j m | XApp true j m => (if Nat.ltb i j then [] else if Nat.ltb i n then [m] else []) ++ rest
+  | XRelSub true j m => (if Nat.leb i j then [] else if Nat.ltb i n then [m] else []) ++ rest
+  | XApp false j m => (if Nat.eqb j i then [m] else []) ++ rest
+  | XRelSub false j m => rest
+  | XRel0 => rest
+  | _ => xsends n i (xprog th)
+  end.
+Definition is_recv (o : xop) : bool := match o with XSend _ _ => false | _ => true end.
+Definition xcons (n : nat) (th : xthread) : Prop :=
+  match xat th with
+  | XSub j m | XApp true j m | XRelSub true j m => (j < n)%nat /\ exists rest, xprog th = XSend 0 m :: rest
+  | XRel0 => exists m rest, xprog th = XSend 0 m :: rest
+  | XApp false j m | XRelSub false j m => exists rest, xprog th = XSend (S j) m :: rest
+  | XPoll _ _ | XM _ | XSweep _ _ _ | XExtend _ => exists o rest, xprog th = o :: rest /\ is_recv o = true
+  | XStart | XRaised _ => True
+  end.
+Definition XOrd (progs : tid -> list xop) (cf : xcfg) : Prop :=
+  let n := xnsubs (fst cf) in
+  forall t, xcons n (snd cf t) /\ forall i, xsends n i (progs t) = mine_of t (xapp (fst cf) (S i)) ++ xpending n i (snd cf t).
+
+Lemma mine_app t l (e : nat * msg) : mine_of t (l ++ [e]) = mine_of t l ++ (if Nat.eqb (fst e) t then [snd e] else []).
+Proof. unfold mine_of. rewrite filter_app, map_app. simpl. destruct (Nat.eqb (fst e) t); reflexivity. Qed.
+
+Lemma rstep_keeps s t l sw blk p s' res : rstep s t l sw blk p = Some (s', res) -> xapp s' = xapp s /\ xnsubs s' = xnsubs s.
+Proof.
+  destruct p; cbn; intros H;
+    repeat match type of H with
+           | (if ?c then _ else _) = _ => destruct c; [|discriminate]
+           | match xq s l with _ => _ end = _ => destruct (xq s l); [discriminate|]
+           end; injection H as <- <-; auto.
+Qed.
+
+Lemma finish_recv_prog n i th r o rest : xprog th = o :: rest -> is_recv o = true -> xsends n i (xprog (x_finish_recv th r)) = xsends n i (xprog th).
+Proof.
+  intros Hp Ho. unfold x_finish_recv. rewrite Hp. destruct o as [p m|p b|p acc]; try discriminate; [reflexivity|]. destruct r; reflexivity.
+Qed.
+
+Local Arguments Nat.ltb : simpl never.
+Local Arguments Nat.leb : simpl never.
+Local Arguments Nat.eqb : simpl never.
+Ltac bdestr := repeat match goal with
+  | |- context [Nat.ltb ?a ?b] => destruct (Nat.ltb_spec a b)
+  | |- context [Nat.leb ?a ?b] => destruct (Nat.leb_spec a b)
+  | |- context [Nat.eqb ?a ?b] => destruct (Nat.eqb_spec a b)
+  end.
+Ltac fin := cbn; bdestr; subst; try lia; try reflexivity; try congruence; auto.
+
+Lemma app_sub_mine s t u j m i :
+  mine_of u (xapp (x_append s t (S j) [m]) (S i)) = mine_of u (xapp s (S i)) ++ (if Nat.eqb j i then if Nat.eqb t u then [m] else [] else []).
+Proof.
+  cbn [xapp x_append]. destruct (Nat.eqb_spec j i) as [->|Hn].
+  - rewrite updf_same. cbn [map]. rewrite mine_app. reflexivity.
+  - rewrite updf_other by congruence. now rewrite app_nil_r.
+Qed.
+
+Lemma xstep_thread_ord s t th s' th' :
+  xstep_thread s t th = Some (s', th') -> xcons (xnsubs s) th ->
+  xnsubs s' = xnsubs s /\ xcons (xnsubs s) th' /\
+  (forall i, mine_of t (xapp s' (S i)) ++ xpending (xnsubs s) i th' = mine_of t (xapp s (S i)) ++ xpending (xnsubs s) i th) /\
+  (forall u i, u <> t -> mine_of u (xapp s' (S i)) = mine_of u (xapp s (S i))).
+Proof.
+  intros H K. unfold xstep_thread in H. unfold xcons in K. unfold xcons, xpending.
+  destruct (xat th) as [|j m|via j m|via j m| |j p|p|j p acc|acc|e] eqn:Hat.
+  - destruct (xprog th) as [|[[|j] m|[|j] b|[|j] acc] rest] eqn:Hp; try discriminate;
+      match type of H with (if x_can s ?l t then _ else _) = _ => destruct (x_can s l t) eqn:Hc; [|discriminate] end; injection H as <- <-;
+      cbn [xat xset_pc xprog xnsubs x_set_lock xapp]; rewrite ?Hp.
+    + destruct (Nat.ltb_spec 0 (xnsubs s)); (split; [reflexivity|split; [eauto|split; [intros i; f_equal; fin|auto]]]).
+    + split; [reflexivity|split; [eauto|split; [intros i; f_equal; fin|auto]]].
+    + split; [reflexivity|split; [exists (XRecv 0 b), rest; auto|split; [intros i; f_equal|auto]]].
+    + split; [reflexivity|split; [exists (XRecv (S j) b), rest; auto|split; [intros i; f_equal|auto]]].
+    + split; [reflexivity|split; [exists (XIterP 0 acc), rest; auto|split; [intros i; f_equal|auto]]].
+    + split; [reflexivity|split; [exists (XIterP (S j) acc), rest; auto|split; [intros i; f_equal|auto]]].
+  - destruct (x_can s (S j) t) eqn:Hc; [|discriminate]. injection H as <- <-. cbn [xat xset_pc xprog xnsubs x_set_lock xapp].
+    split; [reflexivity|split; [exact K|split; [reflexivity|auto]]].
+  - injection H as <- <-. cbn [xat xset_pc xprog xnsubs x_append]. split; [reflexivity|]. split; [exact K|]. split.
+    + intros i. rewrite app_sub_mine, Nat.eqb_refl, <- app_assoc. f_equal. destruct via; [destruct K as [Hj _]|]; fin.
+    + intros u i Hu. rewrite app_sub_mine. apply Nat.eqb_neq in Hu. rewrite Nat.eqb_sym in Hu. rewrite Hu. destruct (Nat.eqb j i); now rewrite app_nil_r.
+  - injection H as <- <-. cbn [xnsubs x_set_lock xapp]. split; [reflexivity|]. destruct via.
+    + destruct K as [Hj [rest Hp]]. unfold x_next. destruct (Nat.ltb_spec (S j) (xnsubs s)); cbn [xat xset_pc xprog]; rewrite ?Hp;
+        (split; [eauto|split; [intros i; f_equal; fin|auto]]).
+    + destruct K as [rest Hp]. cbn [x_finish_send xat xprog]. rewrite Hp. split; [exact I|split; [reflexivity|auto]].
+  - injection H as <- <-. cbn [xnsubs x_set_lock xapp x_finish_send xat xprog]. destruct K as (m & rest & Hp). rewrite Hp.
+    split; [reflexivity|split; [exact I|split; [reflexivity|auto]]].
+  - destruct K as (o & rest & Hp & Ho).
+    destruct (pops_empty s (S j) p); [injection H as <- <-; cbn [xat xset_pc xprog]; rewrite Hp; split; [reflexivity|split; [exact I|split; [reflexivity|auto]]]|].
+    destruct (rstep s t (S j) false (x_is_block th) p) as [[s1 res]|] eqn:Hr; [|discriminate]. destruct (rstep_keeps _ _ _ _ _ _ _ _ Hr) as [Ha Hn].
+    destruct res as [p'|r]; injection H as <- <-; rewrite Ha, Hn; (split; [reflexivity|]).
+    + cbn [xat xset_pc xprog]. split; [eauto|split; [reflexivity|auto]].
+    + rewrite finish_recv_at. split; [exact I|split; [|auto]]. intros i. f_equal. now apply (finish_recv_prog _ _ _ _ o rest).
+  - destruct K as (o & rest & Hp & Ho).
+    assert (G : forall p0 s1 res, rstep s t 0 false (x_is_block th) p0 = Some (s1, res) ->
+                (match res with inl p' => Some (s1, xset_pc th (XM p')) | inr r => Some (s1, x_finish_recv th r) end) = Some (s', th') ->
+                xnsubs s' = xnsubs s /\ match xat th' with XM _ => (exists o rest, xprog th' = o :: rest /\ is_recv o = true) | XStart => True | _ => False end /\
+                (forall i, mine_of t (xapp s' (S i)) ++ xsends (xnsubs s) i (xprog th') = mine_of t (xapp s (S i)) ++ xsends (xnsubs s) i (xprog th)) /\
+                (forall u i, u <> t -> mine_of u (xapp s' (S i)) = mine_of u (xapp s (S i)))).
+    { intros p0 s1 res Hr H1. destruct (rstep_keeps _ _ _ _ _ _ _ _ Hr) as [Ha Hn]. destruct res as [p'|r]; injection H1 as <- <-; rewrite Ha, Hn; (split; [reflexivity|]).
+      - cbn [xat xset_pc xprog]. split; [eauto|split; [reflexivity|auto]].
+      - rewrite finish_recv_at. split; [exact I|split; [|auto]]. intros i. f_equal. now apply (finish_recv_prog _ _ _ _ o rest). }
+    destruct p;
+      try (destruct (pops_empty s 0 _); [injection H as <- <-; cbn [xat xset_pc xprog]; rewrite Hp; split; [reflexivity|split; [exact I|split; [reflexivity|auto]]]|];
+           match type of H with match rstep ?a ?b ?c ?d ?e ?f with _ => _ end = _ => destruct (rstep a b c d e f) as [[s1 res]|] eqn:Hr; [|discriminate] end;
+           destruct (G _ _ _ Hr H) as (G1 & G2 & G3 & G4); split; [exact G1|];
+           destruct (xat th'); try contradiction; (split; [exact G2|split; [exact G3|exact G4]])).
+    destruct (x_can s 0 t); [|discriminate]. injection H as <- <-. cbn [xnsubs x_set_lock xapp]. split; [reflexivity|].
+    destruct (Nat.ltb 0 (xnsubs s)); cbn [xat xset_pc xprog]; (split; [eauto|split; [reflexivity|auto]]).
+  - destruct K as (o & rest & Hp & Ho).
+    destruct (pops_empty s (S j) p); [injection H as <- <-; cbn [xat xset_pc xprog]; rewrite Hp; split; [reflexivity|split; [exact I|split; [reflexivity|auto]]]|].
+    destruct (rstep s t (S j) true false p) as [[s1 res]|] eqn:Hr; [|discriminate]. destruct (rstep_keeps _ _ _ _ _ _ _ _ Hr) as [Ha Hn].
+    destruct res as [p'|[m|]]; injection H as <- <-; rewrite Ha, ?Hn; (split; [reflexivity|]); cbn [xat xset_pc xprog];
+      try (unfold x_next_sweep; destruct (Nat.ltb (S j) (xnsubs s1))); cbn [xat xset_pc xprog]; (split; [eauto|split; [reflexivity|auto]]).
+  - destruct K as (o & rest & Hp & Ho). injection H as <- <-. cbn [xat xset_pc xprog xnsubs x_append xapp]. split; [reflexivity|split; [eauto|split]].
+    + intros i. rewrite updf_other by discriminate. reflexivity.
+    + intros u i Hu. rewrite updf_other by discriminate. reflexivity.
+  - discriminate.
+Qed.
+
+Lemma xstep_ord progs cf t : XOrd progs cf -> XOrd progs (xstep cf t).
+Proof.
+  destruct cf as [s ts]. unfold XOrd, xstep. cbn [fst snd]. intros H.
+  destruct (xstep_thread s t (ts t)) as [[s' th']|] eqn:E; [|exact H]. cbn [fst snd].
+  destruct (xstep_thread_ord _ _ _ _ _ E (proj1 (H t))) as (Hn & Kc & Mt & Mu). rewrite Hn.
+  intros u. destruct (Nat.eq_dec u t) as [->|Hu].
+  - rewrite xupd_same. split; [exact Kc|]. intros i. rewrite Mt. apply (proj2 (H t)).
+  - rewrite xupd_other by assumption. split; [apply (proj1 (H u))|]. intros i. rewrite Mu by assumption. apply (proj2 (H u)).
+Qed.
+
+Lemma xrun_ord progs : forall sched cf, XOrd progs cf -> XOrd progs (xrun sched cf).
+Proof. induction sched as [|t r IH]; intros cf H; [exact H|]. cbn. apply IH, xstep_ord, H. Qed.
+
+Lemma xinit_ord n progs : XOrd progs (xinit n progs).
+Proof. intros t. split; [exact I|]. intros i. reflexivity. Qed.
+
+(* what thread t has put into the deque of sub-port i, followed by what it still has to put there, is what its program sends to that
+   sub-port (directly, or through the MultiPort, which passes every message on to every sub-port), in program order *)
+Theorem mix_sender_order n progs sched t i :
+  let '(s, ts) := xrun sched (xinit n progs) in
+  xsends (xnsubs s) i (progs t) = mine_of t (xapp s (S i)) ++ xpending (xnsubs s) i (ts t).
+Proof.
+  pose proof (xrun_ord progs sched _ (xinit_ord n progs)) as H. destruct (xrun sched (xinit n progs)) as [s ts]. apply (proj2 (H t)).
+Qed.
+
+Lemma xstep_keeps_nsubs cf t : xnsubs (fst (xstep cf t)) = xnsubs (fst cf).
+Proof.
+  destruct cf as [s ts]. unfold xstep. destruct (xstep_thread s t (ts t)) as [[s' th']|] eqn:E; [|reflexivity]. cbn [fst].
+  unfold xstep_thread in E. destruct (xat (ts t)) as [|j m|via j m|via j m| |j p|p|j p acc|acc|e].
+  - destruct (xprog (ts t)) as [|[[|j] m|[|j] b|[|j] acc] rest]; try discriminate;
+      match type of E with (if x_can s ?l t then _ else _) = _ => destruct (x_can s l t); [|discriminate] end; injection E as <- _; reflexivity.
+  - destruct (x_can s (S j) t); [|discriminate]. injection E as <- _. reflexivity.
+  - injection E as <- _. reflexivity.
+  - injection E as <- _. reflexivity.
+  - injection E as <- _. reflexivity.
+  - destruct (pops_empty s (S j) p); [injection E as <- _; reflexivity|].
+    destruct (rstep s t (S j) false (x_is_block (ts t)) p) as [[s1 res]|] eqn:Hr; [|discriminate]. destruct (rstep_keeps _ _ _ _ _ _ _ _ Hr) as [_ Hn].
+    destruct res; injection E as <- _; exact Hn.
+  - destruct p; try (destruct (pops_empty s 0 _); [injection E as <- _; reflexivity|];
+      match type of E with match rstep ?a ?b ?c ?d ?e ?f with _ => _ end = _ => destruct (rstep a b c d e f) as [[s1 res]|] eqn:Hr; [|discriminate] end;
+      destruct (rstep_keeps _ _ _ _ _ _ _ _ Hr) as [_ Hn]; destruct res; injection E as <- _; exact Hn).
+    destruct (x_can s 0 t); [|discriminate]. injection E as <- _. reflexivity.
+  - destruct (pops_empty s (S j) p); [injection E as <- _; reflexivity|].
+    destruct (rstep s t (S j) true false p) as [[s1 res]|] eqn:Hr; [|discriminate]. destruct (rstep_keeps _ _ _ _ _ _ _ _ Hr) as [_ Hn].
+    destruct res as [p'|[m|]]; injection E as <- _; exact Hn.
+  - injection E as <- _. reflexivity.
+  - discriminate.
+Qed.
+Lemma xrun_keeps_nsubs : forall sched cf, xnsubs (fst (xrun sched cf)) = xnsubs (fst cf).
+Proof. induction sched as [|t r IH]; intros cf; [reflexivity|]. cbn. rewrite IH. apply xstep_keeps_nsubs. Qed.
+
+(* the same with the number of sub-ports named: it never changes *)
+Theorem mix_sender_order_n n progs sched t i :
+  let '(s, ts) := xrun sched (xinit n progs) in
+  xsends n i (progs t) = mine_of t (xapp s (S i)) ++ xpending n i (ts t).
+Proof.
+  pose proof (mix_sender_order n progs sched t i) as H. pose proof (xrun_keeps_nsubs sched (xinit n progs)) as Hn.
+  destruct (xrun sched (xinit n progs)) as [s ts]. cbn in Hn. rewrite Hn in H. exact H.
+Qed.
